@@ -715,7 +715,21 @@ class Model:
 
             # N.B. Any parameter expression elimination must be done first.
             symbols = self._symbols(self.constants)
-            values = [v.value for v in self.constants]
+            values = [ca.MX(v.value) for v in self.constants]
+            if len(values) > 0:
+                # Constants can be defined in terms of other constants (when
+                # replace_constant_expressions is off). Resolve those first, so
+                # that no symbol of a removed constant is left behind.
+                for _ in range(SUBSTITUTE_LOOP_LIMIT):
+                    new_values = ca.substitute(values, symbols, values)
+                    converged = ca.is_equal(
+                        ca.veccat(*values), ca.veccat(*new_values), CASADI_COMPARISON_DEPTH
+                    )
+                    values = new_values
+                    if converged:
+                        break
+                else:
+                    logger.warning("Substitution of expressions exceeded maximum iteration limit.")
             if len(self.equations) > 0:
                 self.equations = ca.substitute(self.equations, symbols, values)
             if len(self.initial_equations) > 0:
